@@ -370,6 +370,14 @@ func c18All(env *core.Env, c *c18Case) core.Verdict {
 				}
 			}
 		}
+		if cmd == "update" && r.Exit == 0 {
+			// everything was resolved and written: compare --all has to resolve every file to the same rule and offset
+			cm := cli(env, root, nil, "regex", "compare", "--all")
+			if cm.Exit != 0 || strings.Contains(string(cm.Stdout), "has changed") {
+				return core.Viol("compare-all-resolves-differently", "compare --all right after a successful update --all reports changes (a file is resolved to another rule or offset): exit %d\n%s", cm.Exit, core.Q(tail(cm.Stdout, 6)))
+			}
+			v.Counts["compare_all_after_update_all"]++
+		}
 		_ = os.WriteFile(filepath.Join(root, rulesPath), []byte(orig), 0o644)
 	}
 	return v
@@ -462,7 +470,9 @@ func c18Cases(env *core.Env, rng *rand.Rand) []core.Case {
 		&c18Case{Kind: "all", Args: []string{"932100-chain0256.ra"}},
 		&c18Case{Kind: "all", Args: []string{"932100-chain0256.ra", "932100-chain256.ra"}},
 		&c18Case{Kind: "all", Args: []string{"932100-chain0256.ra", "932100-chain65536.ra"}},
-		&c18Case{Kind: "all", Args: []string{"932100-chain0256.ra", "932100-chain256.ra", "932100-chain65536.ra"}})
+		&c18Case{Kind: "all", Args: []string{"932100-chain0256.ra", "932100-chain256.ra", "932100-chain65536.ra"}},
+		// nothing left that update --all has to refuse (and no two files for the same offset): it succeeds, and compare --all must agree with it
+		&c18Case{Kind: "all", Args: []string{"932100-chain0256.ra", "932100-chain256.ra", "932100-chain65536.ra", "include/932100-chain300.ra", "include/932100.ra", "932100-chain007.ra", "932100-chain0255.ra"}})
 	// file argument versus stdin on awkward contents
 	bom := "\xef\xbb\xbf"
 	contents := []string{"foo\nbar\n", bom + "foo\nbar\n", bom + "##!+ i\nfoo\nbar\n", bom + "##! comment\nfoo\n", "foo\r\nbar\r\n", "##!+ i\r\nfoo\r\n", "foo\nbar", "", "\n", "\n\nfoo\n\n", "  foo  \n\tbar\t\n",
